@@ -11,8 +11,10 @@ pub enum A {
     L(&'static [u8]),
     /// n symbolic bytes
     S(usize),
-    /// n symbolic ASCII digits, optional leading '-'
+    /// n symbolic ASCII digits (the length of every argument is concrete: a symbolic sign would make it symbolic)
     D(usize),
+    /// '-' followed by n symbolic ASCII digits
+    N(usize),
     /// n symbolic ASCII digits, no sign
     G(usize),
     /// 1 symbolic lower-case ASCII letter
@@ -29,14 +31,8 @@ fn arg_bytes(a: A) -> Option<Vec<u8>> {
     match a {
         A::L(l) => Some(l.to_vec()),
         A::S(n) => { let mut v = Vec::with_capacity(n); let mut i = 0; while i < n { v.push(vs::u8()); i += 1; } Some(v) }
-        A::D(n) => {
-            let neg = vs::bool();
-            let mut v = Vec::with_capacity(n + 1);
-            if neg { v.push(b'-'); }
-            let mut i = 0;
-            while i < n { let d = vs::u8(); vs::assume(d >= b'0' && d <= b'9'); v.push(d); i += 1; }
-            Some(v)
-        }
+        A::D(n) => { let mut v = Vec::with_capacity(n); let mut i = 0; while i < n { let d = vs::u8(); vs::assume(d >= b'0' && d <= b'9'); v.push(d); i += 1; } Some(v) }
+        A::N(n) => { let mut v = Vec::with_capacity(n + 1); v.push(b'-'); let mut i = 0; while i < n { let d = vs::u8(); vs::assume(d >= b'0' && d <= b'9'); v.push(d); i += 1; } Some(v) }
         A::G(n) => { let mut v = Vec::with_capacity(n); let mut i = 0; while i < n { let d = vs::u8(); vs::assume(d >= b'0' && d <= b'9'); v.push(d); i += 1; } Some(v) }
         A::K(l) => {
             let mut v = Vec::with_capacity(l.len());
@@ -114,9 +110,9 @@ where F1: Fn(Vec<RespValue>) -> Result<Command, String>, F2: Fn(Vec<RespValueZer
     std::mem::forget((r1, r2));
 }
 
-fn seq(a: &redis_sim::redis::SDS, b: &redis_sim::redis::SDS) -> bool { crate::scenarios::util::sds_eq(a, b) }
-fn vs1(a: &Vec<String>, b: &Vec<String>) -> bool { a.len() == b.len() && (a.len() < 1 || a[0] == b[0]) && (a.len() < 2 || a[1] == b[1]) && a.len() <= 2 }
-fn vsds(a: &Vec<redis_sim::redis::SDS>, b: &Vec<redis_sim::redis::SDS>) -> bool { a.len() == b.len() && (a.len() < 1 || seq(&a[0], &b[0])) && (a.len() < 2 || seq(&a[1], &b[1])) && a.len() <= 2 }
+pub fn seq(a: &redis_sim::redis::SDS, b: &redis_sim::redis::SDS) -> bool { crate::scenarios::util::sds_eq(a, b) }
+pub fn vs1(a: &Vec<String>, b: &Vec<String>) -> bool { a.len() == b.len() && (a.len() < 1 || a[0] == b[0]) && (a.len() < 2 || a[1] == b[1]) && a.len() <= 2 }
+pub fn vsds(a: &Vec<redis_sim::redis::SDS>, b: &Vec<redis_sim::redis::SDS>) -> bool { a.len() == b.len() && (a.len() < 1 || seq(&a[0], &b[0])) && (a.len() < 2 || seq(&a[1], &b[1])) && a.len() <= 2 }
 /// structural equality of two parsed commands, written out per variant: the derived `==` on the 200-variant enum makes
 /// symbolic execution compare under every variant (the discriminant of a value returned through `Result` is no longer
 /// a constant for CBMC). Variants not listed compare as different under Kani (a harness that needs one fails on the
@@ -157,8 +153,8 @@ pub fn veq(a: &Command, b: &Command) -> bool {
 }
 
 /// one arm, one concrete argument shape (literals / symbolic bytes per argument as in `diff`)
-pub fn arm_spec<F1, F2>(name: &'static [u8], args: &[A], f: (F1, F2))
-where F1: Fn(Vec<RespValue>) -> Result<Command, String>, F2: Fn(Vec<RespValueZeroCopy>) -> Result<Command, String> {
+pub fn arm_spec<F1, F2, C>(name: &'static [u8], args: &[A], f: (F1, F2), cmp: C)
+where F1: Fn(Vec<RespValue>) -> Result<Command, String>, F2: Fn(Vec<RespValueZeroCopy>) -> Result<Command, String>, C: Fn(&Command, &Command) -> bool {
     let mut e1: Vec<RespValue> = Vec::with_capacity(args.len() + 1);
     let mut e2: Vec<RespValueZeroCopy> = Vec::with_capacity(args.len() + 1);
     e1.push(RespValue::BulkString(Some(name.to_vec())));
@@ -179,7 +175,7 @@ where F1: Fn(Vec<RespValue>) -> Result<Command, String>, F2: Fn(Vec<RespValueZer
     let r1 = (f.0)(e1);
     let r2 = (f.1)(e2);
     match (&r1, &r2) {
-        (Ok(a), Ok(b)) => { vcheck!(veq(a, b), "parsers:same frame parsed into different commands"); }
+        (Ok(a), Ok(b)) => { vcheck!(if vs::NATIVE { a == b } else { cmp(a, b) }, "parsers:same frame parsed into different commands"); }
         (Err(a), Err(b)) => { vcheck!(a.as_bytes() == b.as_bytes(), "parsers:same frame rejected with different error texts"); }
         (Ok(_), Err(_)) => { vcheck!(false, "parsers:frame accepted by the simulation parser only"); }
         (Err(_), Ok(_)) => { vcheck!(false, "parsers:frame accepted by the production parser only"); }
